@@ -1,6 +1,7 @@
 package main
 
 import (
+	"os"
 	"regexp"
 	"fmt"
 	"go/ast"
@@ -890,7 +891,7 @@ func (f *FuncCtx) callContract(fn *types.Func, c *FuncContract, pc *PkgContracts
 		}
 	}
 	// frame: a callee without an assigns clause must not write module heap (see frameguard.go)
-	if !c.HasAssigns && !c.Assumed && f.spec == nil {
+	if !c.HasAssigns && !c.Assumed && f.spec == nil && os.Getenv("GOVC_TEST_NO_FRAMEGUARD") == "" { // the switch exists only to test the call-cover guard on its own
 		if w, why := f.E.writesHeap(fn, 0, map[*types.Func]bool{}); w {
 			f.fail("callee %s is used through its contract, writes heap (%s) and has no assigns clause", short, why)
 		}
@@ -939,6 +940,9 @@ func (f *FuncCtx) callContract(fn *types.Func, c *FuncContract, pc *PkgContracts
 			f.assume(env, g)
 		}
 		f.specDepth--
+		if len(c.Ensures) > 0 && !c.Assumed {
+			f.obligeCallCover(fmt.Sprintf("call-cover.%s#%d", short, ord), pre, env, "the postconditions assumed for "+short+" are consistent with the caller's state at this call")
+		}
 	}
 	if f.spec != nil && c.Pure && len(c.Axiomatic) > 0 {
 		f.emitPureAxioms(fn, c, pc, sig, recv, short, cpkg)
